@@ -79,6 +79,67 @@ def reweight(rng, case, tries=40):
     return best
 
 
+def remass(rng, case, tries=20):
+    """same edges, weights, externals and D; another mass pattern"""
+    n = len(case["edges"])
+    for _ in range(tries):
+        massive = [rng.random() < 0.5 for _ in range(n)]
+        if massive != list(case["massive"]):
+            dod, Lf, table = oracle.table_oracle(case["edges"], case["weights"], massive, case["ext"], case["D"])
+            return dict(case, massive=massive, table=table, dod=dod, accepted=not oracle.divergent_subsets(table))
+    return None
+
+
+def connected_subset(edges, mask):
+    ids = [e for e in range(len(edges)) if mask >> e & 1]
+    uf = oracle.UF()
+    for e in ids:
+        uf.union(edges[e][0], edges[e][1])
+    return len(set(uf.find(edges[e][0]) for e in ids)) <= 1
+
+
+def classify_rejection(case):
+    """structure of the divergent proper subsets of a rejected case (for the input-distribution histogram and for steering)"""
+    bad = oracle.divergent_subsets(case["table"])
+    if not bad:
+        return "accepted"
+    tags = []
+    if all(not connected_subset(case["edges"], m) for m in bad):
+        tags.append("only_disconnected")
+    if all(case["table"][m][0] == 0 for m in bad):
+        tags.append("only_forests")
+    if all(case["table"][m][1] for m in bad):
+        tags.append("only_spanning")
+    if len(bad) == 1:
+        tags.append("single")
+    return "+".join(tags) if tags else "generic"
+
+
+def structured_rejections(rng, count, max_e=6, budget=4000):
+    """rejected cases whose divergent subsets are all disconnected / all forests / all spanning / a single subset:
+    a check applied to the wrong family of subsets accepts exactly these"""
+    want = {"only_disconnected": count, "only_forests": count, "only_spanning": count, "single": count}
+    out = []
+    names = [k for k, v in gen.CATALOGUE.items() if len(v) <= max_e]
+    for _ in range(budget):
+        if not any(v > 0 for v in want.values()):
+            break
+        edges = list(gen.CATALOGUE[rng.choice(names)]) if rng.random() < 0.6 else gen.random_connected(rng, max_e)
+        edges, _, _ = gen.relabel(rng, edges)
+        c = make_case(rng, edges, rng.randint(1, 6), tries=1, style=rng.choice(["unit", "twelfths"]),
+                      mass_mode=rng.choice(["some", "none", "some"]), ext_mode=rng.choice(["two", "subset", "all"]))
+        if c["accepted"]:
+            continue
+        tag = classify_rejection(c)
+        for t in tag.split("+"):
+            if want.get(t, 0) > 0:
+                want[t] -= 1
+                c["name"] = "structured:" + tag
+                out.append(c)
+                break
+    return out
+
+
 def case_stream(rng, count, max_e=6, accepted_fraction=0.7, connected_only=False):
     """yield cases: catalogue and random graphs, relabelled, all D, with the stated accepted fraction"""
     names = list(gen.CATALOGUE)
